@@ -317,6 +317,8 @@ def main(tier, seed, replay=None):
                       'bursty schedules over 1-2 writers (new + duplicate content), 1-3 readers (single/bulk/metadata/seeking, fresh or pinned snapshot), '
                       'one packer (pack_all_loose with/without per-pack clean, any compression, then clean_storage); distinct by scenario seed')
     ck.coq()
+    import tracecheck
+    tracecheck.check_traces(ck, ck.pid, names=tracecheck.MONO_SCENARIOS)
     n = 120 if tier == 'quick' else 4000
     cases = gen_cases(ck.rng, n, tier)
     with ThreadPoolExecutor(common.NPROC) as ex:
